@@ -2,7 +2,10 @@
 socket_creator talks to a loopback listener that never answers.  The attempt must end with a transient error inside its
 command timeout; if the default sockets were not cooperative (gevent) the timeout could never fire and the process would
 hang -- the caller's time limit then reports that.
-usage: default_socket.py <repo_dir> <smtp|lmtp>      prints 'RESULT <class> <seconds>'"""
+usage: default_socket.py <repo_dir> <smtp|lmtp>      prints 'RESULT <class> <seconds>'
+       default_socket.py <repo_dir> slow-eod        a loopback SMTP server that answers everything at once except the end of
+                                                    data (0.6 s late); relay with connect_timeout 0.2 s, command/data timeouts 8 s:
+                                                    the attempt must be reported as delivered (prints 'RESULT returned <seconds>')"""
 import sys
 import time
 import warnings
@@ -17,6 +20,55 @@ from slimta.relay import TransientRelayError, PermanentRelayError
 from slimta.relay.smtp.static import StaticSmtpRelay, StaticLmtpRelay
 from slimta.envelope import Envelope
 
+if sys.argv[2] == 'slow-eod':
+    from gevent.server import StreamServer
+
+    def handle(sock, addr):
+        f = sock.makefile('rb')
+        sock.sendall(b'220 mx ESMTP\r\n')
+        in_data = False
+        while True:
+            line = f.readline()
+            if not line:
+                return
+            if in_data:
+                if line == b'.\r\n':
+                    in_data = False
+                    gevent.sleep(0.6)
+                    sock.sendall(b'250 2.0.0 queued\r\n')
+                continue
+            w = line.split(b' ')[0].strip().upper()
+            if w == b'EHLO':
+                sock.sendall(b'250-mx\r\n250 8BITMIME\r\n')
+            elif w == b'DATA':
+                in_data = True
+                sock.sendall(b'354 go\r\n')
+            elif w == b'QUIT':
+                sock.sendall(b'221 bye\r\n')
+                return
+            else:
+                sock.sendall(b'250 ok\r\n')
+    try:
+        srv = StreamServer(('127.0.0.1', 0), handle)
+        srv.start()
+    except OSError as e:
+        print('SKIP no loopback: %s' % e)
+        sys.exit(0)
+    relay = StaticSmtpRelay('127.0.0.1', srv.server_port, connect_timeout=0.2, command_timeout=8.0, data_timeout=8.0, ehlo_as='relay.test')
+    env = Envelope('s@x', ['r@y'])
+    env.parse(b'Subject: t\r\n\r\nb\r\n')
+    t0 = time.time()
+    try:
+        relay.attempt(env, 0)
+        out = 'returned'
+    except TransientRelayError as e:
+        out = 'transient'
+    except PermanentRelayError:
+        out = 'permanent'
+    except BaseException as e:
+        out = 'other:' + type(e).__name__
+    print('RESULT %s %.2f' % (out, time.time() - t0))
+    sys.exit(0)
 try:
     lst = std_socket.socket()
     lst.bind(('127.0.0.1', 0))
